@@ -3201,12 +3201,17 @@ func (p *Parser) parseSet() (*SetLiteral, error) {
 	vals := make(map[interface{}]bool)
 	for {
 		tok, pos, lit = p.ScanIgnoreWhitespace()
-		if len(lit) != 0 {
-			switch tok {
-			case INTEGER, NUMBER:
-				val, _ := strconv.ParseFloat(lit, 64)
-				vals[val] = true
-			default:
+		if tok == EOF {
+			return nil, newParseError(tokstr(tok, lit), []string{")"}, pos)
+		}
+		switch tok {
+		case INTEGER, NUMBER:
+			val, _ := strconv.ParseFloat(lit, 64)
+			vals[val] = true
+		case STRING:
+			vals[lit] = true
+		default:
+			if len(lit) != 0 {
 				vals[lit] = true
 			}
 		}
